@@ -46,6 +46,42 @@ CLAIMS = {
          "Arbitrary strings (100k quick / 1M thorough, up to 64 KiB, plus eight 1-4 MiB constructed inputs and 180 s native fuzzing in the thorough tier) at all six decoders via constructor and nil receiver: no panic, exactly one of (object, error); every observer on returned objects, left-over receivers, nil receivers and fresh objects never panics; every one-field-reset state of generated accepted vectors must yield GetError != nil, Encode error and Score 0 at every view whose level includes the field.",
          "Trusted: zero value of each exported enumeration field is its unknown/invalid constant; v2 IsEmpty() on nil receivers is outside the property's observation list.",
          "DESIGN.md section 6, C12"),
+ "C09": ("deterministic sweeps + rapid PBT vs reference token map; permutation / X-vs-omitted metamorphic twins",
+         "Every exported field of every decoded object (read by reflection on the field name) must be the exported constant of the value written for that metric; unwritten v3 optional metrics must be Not Defined, v2 groups must report IsEmpty() correctly; the canonical spelled-out twin and the canonical defined-only twin of every v3 vector must give an identical snapshot (fields, scores, severities, encodings at every level). Sweeps: every metric x code x token position, all 2^14 optional-metric subsets, every v2 metric x code x group shape (thorough: all 8! base-token orders of 4 vectors); rapid 100k / 1M vectors.",
+         "Trusted: reference tokenizer and the name binding of constants; the accepted-vector language itself is C07/C08's subject.",
+         "DESIGN.md section 6, C09"),
+ "C10": ("deterministic sweeps + rapid PBT vs reference canonical encoder; round-trip",
+         "Encode() must return (canonical text, nil) with the canonical text computed by a reference encoder (v3: prefix, specification order, every optional metric of the object's level spelled out; v2: byte-identical input), String() must equal Encode(), and decoding the encoding with the same decoder must give an identical snapshot. Same sweeps and rapid budgets as C09.",
+         "Trusted: reference canonical encoder written from the property statement.",
+         "DESIGN.md section 6, C10"),
+ "C14": ("deterministic sweeps + rapid PBT; differential against independent lower-level decodes of the reference projection",
+         "For every accepted temporal / environmental vector, BaseMetrics() / TemporalMetrics() (and the base view of the temporal view) must agree in score, severity, encoding and encoding error with NewBase / NewTemporal decodes of the vector's base and base+temporal projections computed by the reference tokenizer; accessors must be non-nil and, for v2, be the exported embedded objects.",
+         "Trusted: reference projection. Same sweeps and rapid budgets as C09, restricted to temporal and environmental decoders.",
+         "DESIGN.md section 6, C14"),
+ "C15": ("model-based PBT: generated operation sequences with a fresh-twin oracle",
+         "rapid generates 1-40 step sequences (observer queries on every level view, full observations, report construction/export, exported-field assignments, noise decodes of other vectors) over objects from all six decoders on valid, mutated and arbitrary inputs (decoded objects and failed-decode receivers). After every step the object must equal a never-queried twin rebuilt from its recipe, the twin must equal the twin built before the history, a plain re-decode of the input must equal the first one, and repeated queries must agree; every code of every parser is parsed 200 times. 3,000 sequences quick, 60,000 thorough.",
+         "Only observable state (exported fields, query results, report structs) is compared. Histories are sampled, not exhausted.",
+         "DESIGN.md section 6, C15"),
+ "C16": ("PBT of concurrent workloads under the Go race detector + sequential-equivalence oracle",
+         "The test binary is built with -race. Every process starts with a cold-start storm (16 goroutines issuing identical decode / query / report / export operations before anything has warmed lazily initialised state), then rapid workloads (pool of valid and invalid vectors, 2-16 goroutines x up to 50 operations on own and shared objects, GOMAXPROCS 2/4/16, generated yield points) run concurrent-first; the race runtime's log must not grow and every result must equal the sequential result computed afterwards on the same objects. 16 processes; 480 workloads quick, 8,000 thorough. A process killed by the runtime (concurrent map access) is reported with the workload that was running.",
+         "Schedules are sampled, not enumerated: the harness does not own the Go scheduler. The race detector supplies the order-independent part (happens-before races are reported whenever both accesses execute). A bug that needs one specific interleaving and is invisible to the race detector could be missed.",
+         "DESIGN.md section 6, C16"),
+ "C17": ("complete one-metric sweep + rapid PBT vs hand-written wiring table",
+         "For (vector x report level x language) every report field is compared with the localised title / value name of exactly the metric it is named after (object field read by reflection), version label, each level's Encode(), decimal rendering of each level's score and each level's severity, through the report itself and through the embedded reports; any language other than en/ja must equal the English report. Vectors are biased so that C/I/A, MC/MI/MA and CR/IR/AR are pairwise different; precondition (titles pairwise distinct) re-checked each run. 20k quick / 300k thorough.",
+         "Trusted: names package as dictionary (C18 checks it).",
+         "DESIGN.md section 6, C17"),
+ "C18": ("exhaustive box enumeration + rapid PBT with totality / injectivity / fallback relations",
+         "All 52 name functions x every integer in [-8, max+8] x 66 language tags (complete), plus rapid full-range integers and composed tags: non-empty English and Japanese names for titles and defined values, pairwise distinct value names per metric and language, Modified value name == base value name for the same code, out-of-range values named Unknown / its Japanese equivalent, every other language exactly the English string.",
+         "Trusted: the Unknown literals pinned by the repository's own tests; tags whose language subtag is en/ja but which are not exactly en/ja are skipped as unspecified.",
+         "DESIGN.md section 6, C18"),
+ "C19": ("grammar-based rapid PBT + native fuzzing; differential against text/template plus reflection model",
+         "Templates from a grammar (literals, fields of all three levels and embedded paths, pipelines, control structures, variables, define/template/block, invalid forms) x report level x language x reader kind (string, bytes.Reader, one-byte, half, data-with-EOF, failing after k bytes, nil interface) x nil reports: output must be byte-identical to text/template's on the same value, every failure must match the invalid-template (or null-pointer) sentinel with a nil reader; an independent reflection model decides literal + plain-field templates. 20k quick / 300k thorough + 120 s native fuzzing of the template bytes.",
+         "Trusted: the toolchain's text/template as rendering reference (as the property states). Templates with call cycles or > 1 MiB output are skipped and counted.",
+         "DESIGN.md section 6, C19"),
+ "C20": ("exhaustive table enumeration + bounded-exhaustive short strings + rapid PBT vs reference tables",
+         "For all 22 v3 and 14 v2 metrics: every code parses to the exported constant of that name and prints back, the unknown value prints empty and is separated from every defined value by the validity predicate, every weight equals the specification's decimal (PR per scope; every Modified metric at every own value x every base value; MPR over all MS x S x MPR x PR combinations), integers in [-8, max+8] never panic and print empty; every string of length <= 3 over a 24-character alphabet plus rapid strings must parse to unknown unless it is a code; version label parser/printers (v3/metric and legacy v3/version) are mutually inverse on {3.0, 3.1}.",
+         "Trusted: reference tables transcribed from the FIRST documents; float equality is sound because both sides are the nearest double of the same decimal literal.",
+         "DESIGN.md section 6, C20"),
  "C13": ("exhaustive enumeration with metamorphic (library-vs-library) oracle",
          "All 518,400 v3 vectors (temporal <= base; all-X temporal == base; all-X environmental == temporal except v3.1 with S:C), all 5,184 base vectors through the environmental decoder with X omitted and spelled out, all 73,629 v2 vectors, and the v2 Target Distribution None slice (1,000,000 distinct seeded points quick, all 28,273,536 thorough).",
          "Relations between library results only; no reference model is trusted.",
